@@ -393,3 +393,127 @@ func init() {
 		guardT(t, prog, func() { caseC10Hammer(t, prog) })
 	}})
 }
+
+// TestC10CloseRetry: Close meets ONE storage fault (every position of its file-system mutations
+// is tried), reports it, and the application calls Close again once the storage works. A Close
+// that returns nil has put every accepted write and a matching index on disk - whether it is the
+// first Close or the second.
+func TestC10CloseRetry(t *testing.T) {
+	if !instrumented() {
+		t.Skip("needs the instrumented build")
+	}
+	if f := flag.Lookup("rapid.checks"); f != nil {
+		old := f.Value.String()
+		if n, err := strconv.Atoi(old); err == nil {
+			flag.Set("rapid.checks", strconv.Itoa(1+n/8))
+			defer flag.Set("rapid.checks", old)
+		}
+	}
+	rapid.Check(t, func(rt *rapid.T) {
+		g := NewG(rt, &Profile{Property: "C10", TinyBias: 60, NoHugeStr: true})
+		cfg := Config{Ext: ".json", Cache: g.pct("cache") < 50, Compress: g.pct("compress") < 20,
+			Async: &AsyncCfg{Threshold: 1000000, TimeoutMs: 3600000 * 24}, Cons: map[string]Cons{"I64": {Index: true, Unique: true}}}
+		if g.pct("sync") < 20 {
+			cfg.Async = nil
+		}
+		prog := &Program{Property: "C10", Cfg: cfg, Aux: map[string]interface{}{"closeRetry": 1 + g.uni(5, "objects"), "updates": g.uni(3, "updates"), "commitFirst": g.pct("commitfirst") < 40}}
+		guard(rt, prog, func() { caseC10CloseRetry(rt, prog) })
+	})
+}
+
+func caseC10CloseRetry(t TB, prog *Program) {
+	st := statsFor("C10")
+	n, updates := auxInt(prog.Aux, "closeRetry"), auxInt(prog.Aux, "updates")
+	commitFirst, _ := prog.Aux["commitFirst"].(bool)
+	one := -1
+	if v, ok := prog.Aux["position"]; ok {
+		one = int(v.(float64))
+	}
+	vshim.SetClock(vshim.ClockReal, 1)
+	for k := 0; k < 400; k++ {
+		if one >= 0 && k != one {
+			continue
+		}
+		done := func() bool {
+			e := NewEnv(t, prog, RunOpts{NoObs: true, PreOpen: func(root string) { vshim.Register(root, vshim.ModePass) }})
+			defer func() { vshim.Disarm(e.root); vshim.Unregister(e.root); e.Teardown() }()
+			want := map[string]int64{}
+			var objs []*Doc
+			for i := 0; i < n; i++ {
+				d := &Doc{I64: int64(i), S: "v0"}
+				if err := e.db.InsertOrUpdate(d); err != nil {
+					e.failf("insert: %v", err)
+				}
+				objs = append(objs, d)
+				want[d.UUID()] = int64(i)
+			}
+			if commitFirst {
+				// the index is already on disk while the objects still wait (async)
+				if err := e.db.Commit(&Doc{}); err != nil {
+					e.failf("Commit: %v", err)
+				}
+			}
+			for i := 0; i < updates && i < n; i++ {
+				u := &Doc{I64: int64(100 + i), S: "v1"}
+				u.Initialize(objs[i].UUID())
+				if err := e.db.InsertOrUpdate(u); err != nil {
+					e.failf("update: %v", err)
+				}
+				want[u.UUID()] = int64(100 + i)
+			}
+			prog.Aux["position"] = k
+			vshim.Arm(e.root, k, false)
+			err1 := e.db.Close()
+			_, fired := vshim.Disarm(e.root)
+			db := e.db
+			e.db = nil
+			if !fired {
+				delete(prog.Aux, "position")
+				return true // positions exhausted
+			}
+			acknowledged := err1 == nil
+			if err1 != nil {
+				acknowledged = db.Close() == nil // the application tries again
+			}
+			flags := map[string]int{"close-met-a-storage-fault": 1}
+			if err1 == nil {
+				flags["close-swallowed-the-fault"] = 1
+			}
+			if acknowledged {
+				db2 := sod.Open(e.root)
+				cnt, lerr := db2.Count(&Doc{})
+				if lerr != nil || cnt != len(want) {
+					db2.Close()
+					e.failf("Close failed once at its fs mutation %d (%v), %s; a new handle counts %d objects (err=%v), %d writes had been accepted", k, err1, map[bool]string{true: "the first Close returned nil all the same", false: "the second Close returned nil"}[err1 == nil], cnt, lerr, len(want))
+				}
+				for id, v := range want {
+					got, gerr := db2.GetByUUID(&Doc{}, id)
+					if gerr != nil || got.(*Doc).I64 != v {
+						db2.Close()
+						e.failf("Close failed once at its fs mutation %d (%v) and then returned nil; a new handle reads object %s: err=%v (accepted value %d)", k, err1, id, gerr, v)
+					}
+				}
+				if cerr := db2.Control(); cerr != nil {
+					db2.Close()
+					e.failf("Close failed once at its fs mutation %d (%v) and then returned nil; Control on a new handle: %v", k, err1, cerr)
+				}
+				db2.Close()
+				flags["close-acknowledged-after-a-fault"] = 1
+			}
+			delete(prog.Aux, "position")
+			st.Case(prog.Hash()^uint64((k+1)*2654435761), true, flags, func() interface{} {
+				return map[string]interface{}{"program": prog, "fault_position": k}
+			})
+			return false
+		}()
+		if done {
+			break
+		}
+	}
+}
+
+func init() {
+	replayAlts = append(replayAlts, replayAlt{"C10", hasAux("closeRetry"), func(t *testing.T, prog *Program) {
+		guardT(t, prog, func() { caseC10CloseRetry(t, prog) })
+	}})
+}
